@@ -30,7 +30,22 @@ func doSelftest(args []string) int {
 	bad := 0
 	total := 0
 	start := time.Now()
+	// VERIF_SELFTEST_FILTER=<substring of a batch name> restricts the run; VERIF_SELFTEST_KEEP=1 keeps the traces
+	filter := os.Getenv("VERIF_SELFTEST_FILTER")
+	keep := os.Getenv("VERIF_SELFTEST_KEEP") != ""
 	for _, f := range flav {
+		if filter != "" {
+			var jobs [][2]string
+			for _, jb := range f.jobs {
+				if strings.Contains(jb[1], filter) {
+					jobs = append(jobs, jb)
+				}
+			}
+			f.jobs = jobs
+			if len(jobs) == 0 {
+				continue
+			}
+		}
 		work, err := os.MkdirTemp("", "verifsim-selftest-")
 		if err != nil {
 			fmt.Fprintln(os.Stderr, err)
@@ -68,7 +83,7 @@ func doSelftest(args []string) int {
 						job := Job{Property: prop, Batch: batch, Mode: "explore", Seed: 77, From: 0, To: n, Out: filepath.Join(work, tag+".jsonl"), Trace: trace, NoMinimise: true, MaxViol: 1000}
 						j, _ := json.Marshal(job)
 						cmd := exec.Command(bin, "-test.run", "^TestWorker$", "-test.timeout", "0")
-						cmd.Env = append(os.Environ(), "VERIF_JOB="+string(j), "GOMAXPROCS="+procs, "GORACE=halt_on_error=0 log_path="+filepath.Join(work, tag+".race"))
+						cmd.Env = append(os.Environ(), "VERIF_JOB="+string(j), "GOMAXPROCS="+procs, "GORACE=halt_on_error=0 log_path="+filepath.Join(work, tag+".race"), "VERIF_RACE_LOG="+filepath.Join(work, tag+".race"))
 						_ = cmd.Run()
 						b, err := os.ReadFile(trace)
 						h := "missing"
@@ -102,7 +117,11 @@ func doSelftest(args []string) int {
 			}
 			fmt.Printf("selftest %-4s %-14s %d runs x 9 executions (GOMAXPROCS 1/4/16 x 3): %s\n", jb[0], jb[1], n, status)
 		}
-		os.RemoveAll(work)
+		if keep {
+			fmt.Println("selftest traces kept in", work)
+		} else {
+			os.RemoveAll(work)
+		}
 	}
 	fmt.Printf("selftest: %d/%d batches deterministic, %.0fs\n", total-bad, total, time.Since(start).Seconds())
 	if bad > 0 {
